@@ -173,6 +173,12 @@ def cumulative_case(ctx, rng, idx):
     try:
         if order == 'route_regimen':
             m.set_administration(comp, amount_var=var, direct=direct)
+            if rng.random() < 0.4 or kw.get('num') == 0:
+                # the model carried another regimen before: the one set
+                # last is the one delivered and reported
+                m.set_dosing_regimen(7.7, start=0.05, duration=0.2,
+                                     period=0.3, num=None)
+                feats['earlier_regimen'] = True
             if kind not in ('protocol', 'protocol_overlap') and \
                     rng.random() < 0.4:
                 # the regimen reaches the model through a reduced wrapper
@@ -443,6 +449,19 @@ def dataset_case(ctx, rng, idx):
                          'Dose': np.nan, 'Duration': np.nan})
         last_end = -1.0
         starts = np.sort(rng.uniform(0, 4, size=int(rng.integers(0, 4))))
+        if duplicates and rng.random() < 0.4:
+            # the same dose twice at every dosing time (two tablets per
+            # day), separated by dose-free gaps
+            a_ = float(rng.uniform(0.5, 4))
+            d_ = float(rng.uniform(0.05, 0.3)) if with_duration else np.nan
+            for s_ in 0.3 + 0.9 * np.arange(int(rng.integers(2, 4))):
+                for _ in range(2):
+                    rows.append({'ID': label, 'Time': float(s_),
+                                 'Observable': np.nan, 'Value': np.nan,
+                                 'Dose': a_, 'Duration': d_})
+                    truth[key].append((float(s_), 0.01 if np.isnan(d_)
+                                       else d_, a_))
+            continue
         if overlapping and len(starts) >= 2 and rng.random() < 0.4:
             starts[1] = starts[0]       # e.g. loading bolus + infusion
         for s in starts:
